@@ -54,6 +54,31 @@ type obj struct {
 	wkind       int           // 0 none, 1 integer, 2 real
 	nonpos      bool
 	nonposValid bool
+	// spare capacity behind Xs / Weights as handed to the library (caller-side
+	// layout: the slices may be windows into a larger buffer); filled with a
+	// sentinel that nothing may overwrite
+	tailXs, tailWs []float64
+}
+
+const capSentinel = -31337.5
+
+func withTail(xs []float64, extra int) (s, tail []float64) {
+	buf := make([]float64, len(xs)+extra)
+	copy(buf, xs)
+	tail = buf[len(xs):]
+	for i := range tail {
+		tail[i] = capSentinel
+	}
+	return buf[:len(xs)], tail
+}
+
+func tailIntact(t []float64) bool {
+	for _, v := range t {
+		if v != capSentinel {
+			return false
+		}
+	}
+	return true
 }
 
 type ctx struct {
@@ -174,6 +199,10 @@ func bitsEq(a, b []float64) bool {
 // untouched checks that every object except target is bit-identical to its shadow.
 func (c *ctx) untouched(target int, op string) {
 	for k, o := range c.pool {
+		if !tailIntact(o.tailXs) || !tailIntact(o.tailWs) {
+			c.fail("aliasing", op, "spare-capacity", "%s wrote into the spare capacity behind obj%d's Xs/Weights (the caller's buffer beyond the slice)", op, k)
+			return
+		}
 		if k == target {
 			continue
 		}
@@ -412,6 +441,14 @@ func (c *ctx) create() {
 		}
 		o.s.Xs, o.s.Weights, o.s.Sorted = nx, nw, true
 	}
+	if g.Chance(1, 4) {
+		// the caller's slices are windows into larger buffers: spare capacity behind them
+		o.s.Xs, o.tailXs = withTail(o.s.Xs, 3)
+		if o.s.Weights != nil {
+			o.s.Weights, o.tailWs = withTail(o.s.Weights, 3)
+		}
+		c.probe("object_with_spare_capacity")
+	}
 	o.stale()
 	o.refresh()
 	if len(c.pool) >= 6 {
@@ -592,8 +629,10 @@ func (c *ctx) grow(k int) {
 	default:
 		v = c.g.Uniform(0.001, 1000)
 	}
-	o.s.Xs = append(o.s.Xs, v)
+	o.tailXs, o.tailWs = nil, nil // the caller's own append may use its spare capacity
+	o.s.Xs = append(o.s.Xs[:len(o.s.Xs):len(o.s.Xs)], v)
 	if o.s.Weights != nil {
+		o.s.Weights = o.s.Weights[:len(o.s.Weights):len(o.s.Weights)]
 		w := c.g.Uniform(0.01, 10)
 		if o.wkind == 1 {
 			w = float64(c.g.Range(1, 4))
